@@ -407,6 +407,11 @@ func (g *gen) throughPaymaster(f *fwdSpec, igp sim.IGP) {
 	r := g.r
 	f.hook, f.gasHook = []byte(igp.ID), true
 	f.gas = big.NewInt(rng.Pick(r, []int64{0, 1, 5, 9, 100, 1000, 1000}))
+	if r.Chance(12) {
+		// extreme gas limits: the paymaster's arithmetic is the hook's, with the sender's numbers
+		f.gas = rng.Pick(r, []*big.Int{new(big.Int).Sub(two256, big.NewInt(1)), new(big.Int).Lsh(big.NewInt(1), 255), new(big.Int).Lsh(big.NewInt(1), 254),
+			new(big.Int).Lsh(big.NewInt(1), 222), new(big.Int).Lsh(big.NewInt(1), 64)})
+	}
 	q := igp.Quote(f.gas)
 	other, _ := otherDenom(igp.Denom)
 	f.feeDenom = rng.Pick(r, []string{igp.Denom, igp.Denom, igp.Denom, igp.Denom, other, ""})
@@ -417,15 +422,27 @@ func (g *gen) throughPaymaster(f *fwdSpec, igp sim.IGP) {
 }
 
 // spoil makes a forwarding invalid or mismatched in one way.
-func (g *gen) spoil(f *fwdSpec) string { return g.spoilClass(f, g.r.Intn(15)) }
+func (g *gen) spoil(f *fwdSpec) string { return g.spoilClass(f, g.r.Intn(spoilClasses)) }
 
 // spoilClasses is the number of classes spoilClass knows.
-const spoilClasses = 15
+const spoilClasses = 16
 
 // spoilClass applies one given class (the sweep at the head of some families visits every class for every route).
 func (g *gen) spoilClass(f *fwdSpec, class int) string {
 	r := g.r
 	switch class {
+	case 15:
+		if f.kind == "hyp" && len(g.w.S.IGPs) > 0 {
+			// through a gas paymaster with a gas limit at the edge of the 256-bit range: the hook's own arithmetic
+			// runs on the sender's number inside the receive path
+			igp := pickV(g, g.w.S.IGPs)
+			f.hook, f.gasHook, f.domain = []byte(igp.ID), true, 1
+			f.gas = pickV(g, []*big.Int{new(big.Int).Sub(two256, big.NewInt(1)), new(big.Int).Lsh(big.NewInt(1), 255), new(big.Int).Lsh(big.NewInt(1), 254), new(big.Int).Lsh(big.NewInt(1), 64)})
+			f.feeDenom, f.feeAmt = igp.Denom, big.NewInt(int64(1+r.Intn(1000)))
+			return "hyp-paymaster-extreme-gas"
+		}
+		f.pass = r.Bytes(pickV(g, []int{1, 100, 1200}))
+		return "passthrough"
 	case 14:
 		if f.kind == "hyp" {
 			// a max fee the SDK refuses to put into a coin set, or harmless oddities of fee and gas limit
@@ -707,7 +724,7 @@ func (g *gen) genPacket() (world.Packet, pktInfo) {
 }
 
 var ccPool = map[string][]string{"PROTOCOL_CCTP": {"0", "1", "2", "3", "5", "6", "7", "10", "100", "2147483648", "4294967295"}, "PROTOCOL_HYPERLANE": {"1", "2", "77", "7", "2147483648", "4294967295"},
-	"PROTOCOL_INTERNAL": {"noble"}, "PROTOCOL_IBC": {"channel-0", "channel-1"}}
+	"PROTOCOL_INTERNAL": {"noble", "caf\xc3\xa9"}, "PROTOCOL_IBC": {"channel-0", "channel-1"}}
 
 func (g *gen) hasKind(k string) bool {
 	for _, x := range g.p.msgKinds {
@@ -859,7 +876,7 @@ func (g *gen) genMsg() world.Msg {
 		m.ID = rng.Pick(r, []string{"PROTOCOL_CCTP", "PROTOCOL_CCTP", "PROTOCOL_HYPERLANE", "PROTOCOL_INTERNAL", "PROTOCOL_IBC", "PROTOCOL_UNSUPPORTED", "x"})
 		n := rng.Pick(r, []int{0, 1, 1, 1, 2, 3})
 		pool := map[string][]string{"PROTOCOL_CCTP": {"0", "1", "2", "3", "5", "01", "+1", "4294967296", "x", "", "2147483647", "2147483648", "4294967295"},
-			"PROTOCOL_HYPERLANE": {"1", "2", "77", "1313817164", "-1", "2147483648", "3000000000", "4294967295"}, "PROTOCOL_INTERNAL": {"noble", "other", ""},
+			"PROTOCOL_HYPERLANE": {"1", "2", "77", "1313817164", "-1", "2147483648", "3000000000", "4294967295"}, "PROTOCOL_INTERNAL": {"noble", "other", "", "noble", "a\xffb", "\xc3\x28", "caf\xc3\xa9", "\xed\xa0\x80", "\xf0\x9f\x92\xa9", "\xc0\xaf"},
 			"PROTOCOL_IBC": {"channel-0", "channel-1", "channel-01", "chan"}}[m.ID]
 		if pool == nil {
 			pool = []string{"0"}
